@@ -1,6 +1,7 @@
 package main
 
 import (
+	"os/exec"
 	"crypto/sha1"
 	"encoding/json"
 	"flag"
@@ -109,6 +110,7 @@ func cmdPuritySeq(args []string) error {
 	in := fs.String("in", "", "")
 	orders := fs.String("orders", "", "ndjson of [index...]")
 	out := fs.String("out", "", "")
+	one := fs.String("one", "", "child mode: one order as JSON; the records are printed to stdout")
 	if err := fs.Parse(args); err != nil {
 		return err
 	}
@@ -116,26 +118,56 @@ func cmdPuritySeq(args []string) error {
 	if err != nil {
 		return err
 	}
-	w, err := newNDWriter(*out)
-	if err != nil {
-		return err
-	}
-	err = readNDJSON(*orders, func(line []byte) error {
+	if *one != "" {
 		var ord []int
-		if err := json.Unmarshal(line, &ord); err != nil {
+		if err := json.Unmarshal([]byte(*one), &ord); err != nil {
 			return err
 		}
+		enc := json.NewEncoder(os.Stdout)
 		for pos, k := range ord {
-			if err := w.Write(map[string]any{"base": items[k].ID, "variant": fmt.Sprintf("order %v position %d", ord, pos), "hash": processItem(items[k])}); err != nil {
+			if err := enc.Encode(map[string]any{"base": items[k].ID, "variant": fmt.Sprintf("order %v position %d", ord, pos), "hash": processItem(items[k])}); err != nil {
 				return err
 			}
 		}
+		return nil
+	}
+	// every order runs in a process of its own, so that a difference is a consequence of THAT order alone
+	var ords []string
+	err = readNDJSON(*orders, func(line []byte) error {
+		ords = append(ords, string(line))
 		return nil
 	})
 	if err != nil {
 		return err
 	}
-	return w.Close()
+	outs := make([][]byte, len(ords))
+	errs := make([]error, len(ords))
+	sem := make(chan struct{}, 12)
+	var wg sync.WaitGroup
+	for i, o := range ords {
+		wg.Add(1)
+		sem <- struct{}{}
+		go func(i int, o string) {
+			defer wg.Done()
+			defer func() { <-sem }()
+			outs[i], errs[i] = exec.Command(os.Args[0], "purity-seq", "-in", *in, "-one", o).Output()
+		}(i, o)
+	}
+	wg.Wait()
+	f, err := os.Create(*out)
+	if err != nil {
+		return err
+	}
+	defer f.Close()
+	for i := range ords {
+		if errs[i] != nil {
+			return fmt.Errorf("order %s: %v", ords[i], errs[i])
+		}
+		if _, err := f.Write(outs[i]); err != nil {
+			return err
+		}
+	}
+	return nil
 }
 
 // purity-conc: n goroutines, each processing its own item again and again while the others run.
